@@ -40,7 +40,7 @@ type c34Event struct {
 	Jump   int `json:"jump"`   // 0: slot+1, 1: first slot of the next epoch
 	Tick   int `json:"tick"`   // 0..2 tickets
 	Pre    int `json:"pre"`    // 0 none, 1 one 3-byte blob, 2 two blobs
-	Guar   int `json:"guar"`   // 0 none, 1 one guarantee with 2 signers, 2 one with 3 signers
+	Guar   int `json:"guar"`   // 0 none, 1 one guarantee with 2 signers, 2 one with 3 signers, 3..8 two guarantees (see c34Guarantees)
 	Assur  int `json:"assur"`  // bit0: validator 1 assures, bit1: validator 4 assures
 	Work   int `json:"work"`   // index into the work alphabet
 }
@@ -56,9 +56,14 @@ func c34Events() []c34Event {
 		for j := 0; j < 2; j++ {
 			for t := 0; t < 3; t++ {
 				for p := 0; p < 3; p++ {
-					for g := 0; g < 3; g++ {
+					for g := 0; g < 9; g++ {
 						for as := 0; as < 4; as++ {
 							for w := 0; w < 3; w++ {
+								if g >= 3 && (t == 1 || p == 1 || as == 1 || as == 2) {
+									// two-guarantee blocks: the other axes at their extremes only
+									// (tickets {0,2}, preimages {none,two}, assurers {none,both})
+									continue
+								}
 								out = append(out, c34Event{a, j, t, p, g, as, w})
 							}
 						}
@@ -70,7 +75,68 @@ func c34Events() []c34Event {
 	return out
 }
 
-var c34GuarSigners = [][]int{nil, {1, 3}, {0, 3, 5}}
+// one guarantee of a block: its signers, which report it carries (false: the work
+// alphabet's reported report; true: the fixed second report on the other core) and
+// whether its slot lies in the previous rotation (the G* case of GP 11.22)
+type c34Guar struct {
+	signers []int
+	second  bool
+	prevRot bool
+}
+
+// Guar 3..8: TWO guarantees in one block (cores c and 1-c) with (a) disjoint signers,
+// (b) one common signer, (c) the same signer set; odd codes put the second guarantee
+// into the previous rotation. A validator signing both is one reporter (GP 13.5: the
+// block-wide reporter SET): it gains exactly one.
+func c34Guarantees(code int) []c34Guar {
+	switch code {
+	case 1:
+		return []c34Guar{{signers: []int{1, 3}}}
+	case 2:
+		return []c34Guar{{signers: []int{0, 3, 5}}}
+	case 3, 4:
+		return []c34Guar{{signers: []int{1, 3}}, {signers: []int{0, 5}, second: true, prevRot: code == 4}}
+	case 5, 6:
+		return []c34Guar{{signers: []int{1, 3}}, {signers: []int{3, 5}, second: true, prevRot: code == 6}}
+	case 7, 8:
+		return []c34Guar{{signers: []int{1, 3}}, {signers: []int{1, 3}, second: true, prevRot: code == 8}}
+	}
+	return nil
+}
+
+// the set of reporters of the block
+func c34Reporters(code int) []int {
+	seen := map[int]bool{}
+	var out []int
+	for _, g := range c34Guarantees(code) {
+		for _, v := range g.signers {
+			if !seen[v] {
+				seen[v] = true
+				out = append(out, v)
+			}
+		}
+	}
+	return out
+}
+
+// the report carried by a guarantee
+func c34GuarReport(g c34Guar, w c34Work) c34Report {
+	if !g.second {
+		return w.reported
+	}
+	return c34Report{core: 1 - w.reported.core, length: 173, exports: 2, authGas: 17, results: []c34Load{{3, 97, 101, 103, 107, 1090}}}
+}
+
+// guarantee slot: the block's slot, or a slot of the previous rotation when that
+// rotation lies in the same epoch (then G* still looks reporters up in kappa', which
+// is what the statement's "each reporting guarantor" unambiguously covers)
+func c34GuarSlot(g c34Guar, slot uint32) uint32 {
+	const rot = 4
+	if g.prevRot && slot >= rot && (slot-rot)/c34E == slot/c34E {
+		return slot - rot
+	}
+	return slot
+}
 var c34AssurVals = []int{1, 4}
 var c34AssurBits = []byte{0x01, 0x03} // validator 1: core 0; validator 4: cores 0 and 1
 
@@ -180,7 +246,7 @@ func c34Ref(s c34State, e c34Event) c34Out {
 		a.D += uint32(b.size)
 	}
 	// each reporting guarantor gains one
-	for _, v := range c34GuarSigners[e.Guar] {
+	for _, v := range c34Reporters(e.Guar) {
 		o.St.Curr[v].G++
 	}
 	// each assurer gains one
@@ -191,16 +257,17 @@ func c34Ref(s c34State, e c34Event) c34Out {
 	}
 	// cores: sums over the newly reported and newly available work, assurance counts
 	w := c34Works[e.Work]
-	if e.Guar != 0 {
-		c := &o.Cores[w.reported.core]
-		for _, r := range w.reported.results {
+	for _, g := range c34Guarantees(e.Guar) {
+		rep := c34GuarReport(g, w)
+		c := &o.Cores[rep.core]
+		for _, r := range rep.results {
 			c.Imports += r.imp
 			c.ExtrinsicCount += r.xc
 			c.ExtrinsicSize += r.xsize
 			c.Exports += r.exp
 			c.GasUsed += r.gas
 		}
-		c.BundleSize += w.reported.length
+		c.BundleSize += rep.length
 	}
 	for _, av := range w.available {
 		segs := (uint32(av.exports)*65 + 63) / 64
@@ -217,8 +284,8 @@ func c34Ref(s c34State, e c34Event) c34Out {
 	}
 	// services: keys = services of reported results ∪ preimage requesters ∪ accumulated services
 	o.Svcs = map[uint32]c34Svc{}
-	if e.Guar != 0 {
-		for _, r := range w.reported.results {
+	for _, g := range c34Guarantees(e.Guar) {
+		for _, r := range c34GuarReport(g, w).results {
 			sv := o.Svcs[r.svc]
 			sv.RefinementCount++
 			sv.RefinementGasUsed += r.gas
@@ -344,9 +411,9 @@ func c34Step(cs *blockchain.ChainState, e c34Event) (types.Statistics, types.Tim
 	}
 	w := c34Works[e.Work]
 	var present []types.WorkReport
-	if e.Guar != 0 {
-		g := types.ReportGuarantee{Report: c34MkReport(w.reported), Slot: slot}
-		for _, v := range c34GuarSigners[e.Guar] {
+	for _, gd := range c34Guarantees(e.Guar) {
+		g := types.ReportGuarantee{Report: c34MkReport(c34GuarReport(gd, w)), Slot: types.TimeSlot(c34GuarSlot(gd, uint32(slot)))}
+		for _, v := range gd.signers {
 			g.Signatures = append(g.Signatures, types.ValidatorSignature{ValidatorIndex: types.ValidatorIndex(v)})
 		}
 		blk.Extrinsic.Guarantees = append(blk.Extrinsic.Guarantees, g)
@@ -627,7 +694,7 @@ func TestVerif_C34(t *testing.T) {
 		// the third block ranges over the full alphabet in every state so reached.
 		var sub []c34Event
 		for _, e := range events {
-			if e.Tick != 1 && e.Pre != 1 && e.Guar != 1 && (e.Assur == 0 || e.Assur == 3) && e.Work == 0 {
+			if e.Tick != 1 && e.Pre != 1 && (e.Guar == 0 || e.Guar == 2) && (e.Assur == 0 || e.Assur == 3) && e.Work == 0 {
 				sub = append(sub, e)
 			}
 		}
